@@ -21,6 +21,7 @@ import (
 
 	"github.com/criyle/go-sandbox/container"
 	"github.com/criyle/go-sandbox/pkg/forkexec"
+	"github.com/criyle/go-sandbox/pkg/mount"
 	"github.com/criyle/go-sandbox/runner"
 	"golang.org/x/sys/unix"
 	"pgregory.net/rapid"
@@ -510,6 +511,7 @@ type c06CCase struct {
 	Files    []int // marker ids; -3 = host's /dev/null, -1 = report pipe
 	ByFd     bool
 	RunTwice bool
+	ByFd2    bool // second round: by descriptor (true) or by path (the two rounds may differ in shape)
 }
 
 func TestC06Container(t *testing.T) {
@@ -521,6 +523,19 @@ func TestC06Container(t *testing.T) {
 	defer os.RemoveAll(dir)
 	ce := &c09Env{}
 	defer ce.close()
+	// the environment has the probe bound at /vprobe, so that a round can also start it by path
+	getEnv := func() (container.Environment, error) {
+		if ce.env != nil {
+			return ce.env, nil
+		}
+		mb := mount.NewDefaultBuilder().WithTmpfs("w", "").WithTmpfs("tmp", "").WithBind(probe.Path(), "vprobe", true).FilterNotExist()
+		env, root, err := buildContainer(&container.Builder{Mounts: mb.Mounts})
+		if err != nil {
+			return nil, vh.Infraf("container build: %v", err)
+		}
+		ce.env, ce.root = env, root
+		return env, nil
+	}
 	markers := map[int]*os.File{}
 	defer func() {
 		for _, f := range markers {
@@ -539,7 +554,7 @@ func TestC06Container(t *testing.T) {
 		return f, nil
 	}
 	vh.Check(t, rec, func(rt *rapid.T) c06CCase {
-		c := c06CCase{ByFd: rapid.Bool().Draw(rt, "byfd"), RunTwice: true}
+		c := c06CCase{ByFd: rapid.Bool().Draw(rt, "byfd"), RunTwice: true, ByFd2: rapid.Bool().Draw(rt, "byfd2")}
 		n := rapid.IntRange(1, 12).Draw(rt, "n")
 		for i := 0; i < n; i++ {
 			c.Files = append(c.Files, rapid.IntRange(-3, 5).Draw(rt, "m"))
@@ -550,12 +565,16 @@ func TestC06Container(t *testing.T) {
 		c.Files[rapid.IntRange(0, n-1).Draw(rt, "rpos")] = -1
 		return c
 	}, func(c c06CCase) error {
-		env, err := ce.get()
+		env, err := getEnv()
 		if err != nil {
 			return err
 		}
 		var prev string
 		for round := 0; round < 2; round++ {
+			byFd := c.ByFd
+			if round == 1 {
+				byFd = c.ByFd2
+			}
 			rp, err := newReportPipe()
 			if err != nil {
 				return err
@@ -590,23 +609,16 @@ func TestC06Container(t *testing.T) {
 			s.Add("exit:0")
 			argv := s.Argv(newTag(), rfd)
 			p := container.ExecveParam{Args: argv, Env: []string{"A=1"}, Files: files}
-			if c.ByFd {
+			if byFd {
 				efd, err := probeExecFd()
 				if err != nil {
 					rp.finish()
 					return err
 				}
 				p.ExecFile = efd
-				p.Args[0] = "/vprobe"
+				p.Args[0] = "/x/y/vprobe" // never looked at: the executable is the descriptor
 			} else {
-				// by path: the default container has no vprobe inside; copy-in is another property: use ExecFile only
-				efd, err := probeExecFd()
-				if err != nil {
-					rp.finish()
-					return err
-				}
-				p.ExecFile = efd
-				p.Args[0] = "/x/y/vprobe"
+				p.Args[0] = "/vprobe"
 			}
 			res, hung, _ := runWithTimeout(func() runner.Result { return env.Execve(context.Background(), p) }, 0)
 			rep := rp.finish()
@@ -654,7 +666,7 @@ func TestC06Container(t *testing.T) {
 			prev = cur
 		}
 		nt := len(c.Files) < 3 || len(c.Files) > 7
-		rec.Case(c, nt, fmt.Sprintf("container-len=%d", len(c.Files)))
+		rec.Case(c, nt, fmt.Sprintf("container-len=%d", len(c.Files)), fmt.Sprintf("container-rounds(by-descriptor=%v,then=%v)", c.ByFd, c.ByFd2))
 		rec.Evals(2)
 		if nt && rec.WantSample() {
 			rec.Sample(c)
